@@ -341,6 +341,28 @@ def type_param_collection_contract(repo: Repo):
 
     why = type_param_collection_contract.__doc__.split(":", 1)[1].strip()
     fi = repo.func(M_HELPERS, "collect_type_params")
+    # Since round 7 the contract is decided by *evaluating* the helper on type objects (typeeval.py): duplicates, nesting and
+    # order of first occurrence.  The syntactic membership-test analysis below is kept only as a fallback for a body the
+    # evaluator cannot interpret (it flagged a behaviour-preserving respelling of the loop as undecidable, benign/b5).
+    try:
+        from . import typepreds as _tp
+        from .typeeval import TypeEval, evaluate
+        te = TypeEval(repo)
+        f = te.func(M_HELPERS, "collect_type_params")
+        res = []
+        for label, fn, args, kwargs, want in _tp._cases():
+            if fn != "collect_type_params":
+                continue
+            got = evaluate(te, f, *args, **kwargs)
+            if got[0] == "unsupported":
+                res = None
+                break
+            ok = got[0] == want[0] and (_tp._same(got[1], want[1]) if got[0] == "value" else got[1] == want[1])
+            res.append((ok, f"{label} evaluates to {_tp._show(got[1])}" + ("" if ok else f", expected {_tp._show(want[1])}"), why))
+        if res:
+            return res
+    except Exception:  # noqa: BLE001 -- fall back to the syntactic analysis
+        pass
     acc = None
     for st in fi.node.body:
         if isinstance(st, ast.Assign) and isinstance(st.value, ast.List) and not st.value.elts and isinstance(st.targets[0], ast.Name):
